@@ -52,6 +52,7 @@ var c04Refs = map[string]bool{
 	"k_moduleName": true, "types_ModuleName": true, "ibctransfertypes_ModuleName": true, "k_moduleAddress": true,
 	"holder": true, "sender": true, "receiver": true, "from_": true, "erc20Contract": true, "pair_GetERC20Contract": true,
 	"bridgeToken": true, "coin": true, "targetCoin": true, "baseCoin": true, "ibcCoin": true, "addBridgeFee": true, "coins": true,
+	"mintCoins": true, "unlockCoins": true, "erc20types_ModuleName": true, "tokenPair_GetERC20Contract": true, "amount": true,
 }
 
 var c04Space = regexp.MustCompile(`\s+`)
@@ -234,6 +235,26 @@ func extractC04(c *ctxT) {
 			{"ibcCoinToBaseCoin_voucher", []string{"-!strings.HasPrefix(coin.Denom"}}}},
 		{"x/crosschain/keeper", "Keeper", "BaseCoinToIBCCoin", []c04Want{
 			{"baseCoinToIBCCoin", []string{"-strings.HasPrefix(coin.Denom"}}}},
+		// refund of an outgoing bridge call: mint unless origin, unlock; then the older conversion system
+		{"x/crosschain/keeper", "Keeper", "bridgeCallTransferCoins", []c04Want{
+			{"bridgeCallTransferCoins_mint", []string{"+mintCoins.IsAllPositive()", "+unlockCoins.IsAllPositive()"}},
+			{"bridgeCallTransferCoins_unlock", []string{"-mintCoins.IsAllPositive()", "+unlockCoins.IsAllPositive()"}}}},
+		{"x/erc20/keeper", "Keeper", "ConvertDenomToTarget", []c04Want{
+			{"convertDenomToTarget_same", []string{"+coin.Denom == targetCoin.Denom"}},
+			{"convertDenomToTarget", []string{"-coin.Denom == targetCoin.Denom"}}}},
+		{"x/erc20/keeper", "Keeper", "convertNativeCoin", []c04Want{
+			{"convertNativeCoin_fromBase", []string{"+coin.Denom == metadata.Base"}},
+			{"convertNativeCoin_toBase", []string{"-coin.Denom == metadata.Base", "+targetCoin.Denom == metadata.Base"}},
+			{"convertNativeCoin_alias", []string{"-coin.Denom == metadata.Base", "-targetCoin.Denom == metadata.Base"}}}},
+		{"x/erc20/keeper", "Keeper", "convertNativeERC20", []c04Want{
+			{"convertNativeERC20_fromBase", []string{"+coin.Denom == metadata.Base"}},
+			{"convertNativeERC20_toBase", []string{"-coin.Denom == metadata.Base", "+targetCoin.Denom == metadata.Base"}},
+			{"convertNativeERC20_alias", []string{"-coin.Denom == metadata.Base", "-targetCoin.Denom == metadata.Base"}}}},
+		// precompile entry: ERC-20 in, base coin out (the bank part; the ERC-20 burn goes through the running EVM)
+		{"x/crosschain/precompile", "Keeper", "convertERC20", []c04Want{
+			{"precompileConvertERC20_fx", []string{"+tokenPair.IsNativeCoin()", "+tokenPair.GetDenom() == fxtypes.DefaultDenom"}},
+			{"precompileConvertERC20_nativeCoin", []string{"+tokenPair.IsNativeCoin()", "-tokenPair.GetDenom() == fxtypes.DefaultDenom"}},
+			{"precompileConvertERC20_nativeERC20", []string{"-tokenPair.IsNativeCoin()", "+tokenPair.IsNativeERC20()"}}}},
 	}
 	var sb strings.Builder
 	sb.WriteString("import FxVerif.Model.C04\nnamespace FxVerif.Gen.C04\nopen FxVerif.Model.Flows (Call)\nopen FxVerif.Model.C04 (BStep BGuard BExit RStep RGuard RExit Cmp CancelRule XStep Sig Ref)\n\n")
